@@ -40,18 +40,34 @@ func killChildren() {
 	}
 }
 
-// runsOf run-length encodes captured output as [letter number, count] pairs (any byte that is not a
-// lower-case letter is reported as 255+byte).
-func runsOf(s string) []any {
+// chunkByte: the byte that chunk number k consists of.  The model speaks of "the byte tagged
+// k % 26"; which byte carries a tag is the harness's choice (injective per palette): lower-case
+// letters, the 26 bytes 0xe0..0xf9 (UTF-8 lead bytes: a run of them is NOT valid UTF-8 - what a
+// command writes is bytes, not text; seeded change c14-output-forced-to-valid-utf8), or the
+// control characters 0x00..0x19 (NUL, backspace, line ends, escape).
+func chunkByte(pal string, k int) byte {
+	switch pal {
+	case "bin":
+		return 0xe0 + byte(k%26)
+	case "ctl":
+		return byte(k % 26)
+	}
+	return 'a' + byte(k%26)
+}
+
+// runsOf run-length encodes captured output as [tag, count] pairs (a byte outside the palette is
+// reported as 1000+byte).
+func runsOf(s string, pal string) []any {
 	out := []any{}
+	base := chunkByte(pal, 0)
 	for i := 0; i < len(s); {
 		j := i
 		for j < len(s) && s[j] == s[i] {
 			j++
 		}
-		tag := 255 + int(s[i])
-		if s[i] >= 'a' && s[i] <= 'z' {
-			tag = int(s[i] - 'a')
+		tag := 1000 + int(s[i])
+		if s[i] >= base && int(s[i]) < int(base)+26 {
+			tag = int(s[i] - base)
 		}
 		out = append(out, []any{tag, j - i})
 		i = j
@@ -87,6 +103,7 @@ func init() {
 		var sb strings.Builder
 		wl := a["writes"].([]any)
 		bgLast, _ := a["bg_last"].(bool)
+		pal := str(a["pal"])
 		for k, wv := range wl {
 			w := wv.(map[string]any)
 			fd := "1"
@@ -98,10 +115,10 @@ func init() {
 				// the LAST chunk is written by a background child that inherited the streams, 0.45 s
 				// after the command itself has ended: it belongs to the captured output, and the
 				// recorded status is still the command's own (seeded change c14-wait-delay-drops-status)
-				fmt.Fprintf(&sb, "(sleep 0.45; head -c %d /dev/zero | tr '\\000' '%c' >&%s) & ", numOf(w["n"]), 'a'+byte(k%26), fd)
+				fmt.Fprintf(&sb, "(sleep 0.45; head -c %d /dev/zero | tr '\\000' '\\%03o' >&%s) & ", numOf(w["n"]), chunkByte(pal, k), fd)
 				continue
 			}
-			fmt.Fprintf(&sb, "head -c %d /dev/zero | tr '\\000' '%c' >&%s; ", numOf(w["n"]), 'a'+byte(k%26), fd)
+			fmt.Fprintf(&sb, "head -c %d /dev/zero | tr '\\000' '\\%03o' >&%s; ", numOf(w["n"]), chunkByte(pal, k), fd)
 		}
 		switch str(a["end"]) {
 		case "exit":
@@ -126,7 +143,7 @@ func init() {
 				return map[string]any{"completed": true, "error": true}
 			}
 			return map[string]any{"completed": true, "stdout": len(r.m["stdout"].(string)), "stderr": len(r.m["stderr"].(string)),
-				"stdout_runs": runsOf(r.m["stdout"].(string)), "stderr_runs": runsOf(r.m["stderr"].(string)),
+				"stdout_runs": runsOf(r.m["stdout"].(string), pal), "stderr_runs": runsOf(r.m["stderr"].(string), pal),
 				"complete_in_model": true, "exit": int(r.m["return-value"].(float64))}
 		case <-time.After(deadline):
 			killChildren()
@@ -244,6 +261,16 @@ func runC14(r *Runner, tier string, rng *Rng) {
 		}
 		r.St.Count("commands")
 		args := map[string]any{"writes": ws, "end": end, "code": code, "cap": capB, "dir": dir}
+		switch rng.Intn(10) {
+		case 0, 1, 2:
+			args["pal"] = "bin"
+			feat += "bin,"
+			r.St.Count("non_utf8_output")
+		case 3:
+			args["pal"] = "ctl"
+			feat += "ctl,"
+			r.St.Count("control_char_output")
+		}
 		if rng.Chance(12) && end == "exit" {
 			args["bg_last"] = true
 			feat += "bg-last,"
@@ -277,5 +304,5 @@ func runC14(r *Runner, tier string, rng *Rng) {
 		batch = append(batch, Case{Op: "runerr", Args: args, Feat: "start:" + st.class})
 	}
 	flush()
-	r.St.Rule = "real commands (sh -c with head -c N /dev/zero >&fd) writing volumes from {0, 1, cap-1, cap, cap+1, 4*cap (thorough: 200000, 4 MiB), random} to stdout and stderr in 1-4 chunks in any order, ending with exit status 0..255 or SIGKILL, in two working directories, each under a 20 s deadline; every chunk written in its own letter; compared: completion, captured byte counts AND run-length encoded content of both streams, return value. plus commands that cannot be started in every way a start can fail (no command, not found, not executable, a directory, missing / non-directory working directory) next to startable controls, through RunCommand and InTotoRun: error exactly when not startable. Class = (chunk pattern in units of the pipe capacity, ending / start class)."
+	r.St.Rule = "real commands (sh -c with head -c N /dev/zero >&fd) writing volumes from {0, 1, cap-1, cap, cap+1, 4*cap (thorough: 200000, 4 MiB), random} to stdout and stderr in 1-4 chunks in any order, ending with exit status 0..255 or SIGKILL, in two working directories, each under a 20 s deadline; every chunk written in its own byte (letters; in 30% bytes that are not valid UTF-8; in 10% control characters); compared: completion, captured byte counts AND run-length encoded content of both streams, return value. plus commands that cannot be started in every way a start can fail (no command, not found, not executable, a directory, missing / non-directory working directory) next to startable controls, through RunCommand and InTotoRun: error exactly when not startable. Class = (chunk pattern in units of the pipe capacity, ending / start class)."
 }
